@@ -238,6 +238,16 @@ def r10_6(ctx):
     delegate(ctx, c02.r02_9, lambda c: c.startswith("_escape/"))
 
 
+def r10_7(ctx):
+    """R10.7 nothing that composes the minimal file cuts config text with str.splitlines() (module-wide over the library and
+    kconfgen, header helpers in esp_kconfiglib.constants included): it drops the line end together with the pragma and the
+    next assignment is glued onto the header line."""
+    from .common import no_splitlines
+    mods = [m for m in ("esp_kconfiglib.constants", "esp_kconfiglib.core", "esp_kconfiglib.deprecated", "kconfgen.core", "esp_menuconfig.model", "esp_menuconfig.app")
+            if m in ctx.repo.modules]
+    no_splitlines(ctx, mods, "a record loses its line end or is cut in two")
+    ctx.ok("minimal-config composition/modules examined for str.splitlines()", "", nontrivial=False, modules=mods)
+
 def rules():
-    return [("R10.6", r10_6, 3), ("R10.1", r10_1, 4), ("R10.1b", r10_1b, 3), ("R10.2", r10_2, 4), ("R10.2b", r10_2b, 2), ("R10.3", r10_3, 2),
+    return [("R10.7", r10_7, 1), ("R10.6", r10_6, 3), ("R10.1", r10_1, 4), ("R10.1b", r10_1b, 3), ("R10.2", r10_2, 4), ("R10.2b", r10_2b, 2), ("R10.3", r10_3, 2),
             ("R10.4", r10_4, 1), ("R10.5", r10_5, 5)]
